@@ -59,6 +59,7 @@ fn set_str(m: &BTreeMap<String, BTreeSet<String>>, ids: &mut BTreeMap<String, us
 
 pub fn run(ctx: &mut Ctx) {
     let pki = Pki::new(&mut ctx.rng);
+    let other_root = Pki::new(&mut ctx.rng).iaca.clone();
     let mut rng: rand_chacha::ChaCha8Rng = rand::SeedableRng::seed_from_u64(ctx.rng.gen());
     let configs = crate::c18::retrieval_configs(ctx);
     let n_sessions = if ctx.thorough { 120 } else { 18 };
@@ -87,7 +88,14 @@ pub fn run(ctx: &mut Ctx) {
         let eng = base64::decode_config(qr.strip_prefix("mdoc:").unwrap(), base64::URL_SAFE_NO_PAD).unwrap();
         let scalar: Vec<u8> = sess::vget(&sess::b64_to_value(&engaged.stringify().unwrap()), "e_device_key").and_then(|v| v.as_array()).unwrap().iter().map(|x| i128::from(x.as_integer().unwrap()) as u8).collect();
         let with_anchor = si % 5 != 4;
-        let registry = if with_anchor { pki.iaca_registry() } else { TrustAnchorRegistry::default() };
+        // trust configurations under which the honest issuer must come out Valid: the current root alone; the current
+        // root listed AFTER its lapsed predecessor (same name and key: a renewed root appended, the old one left in
+        // place) or after an unrelated root; and no anchor at all (then issuer authentication is not expected Valid)
+        let lapsed_root = { let mut sp = world::root_spec("CN=iaca,C=US", &pki.iaca_key); sp.not_before = -86400 * 400; sp.not_after = -86400; sp.serial = 7; world::build_cert(&sp, &pki.iaca_key, &pki.iaca_key) };
+        let registry = if !with_anchor { TrustAnchorRegistry::default() } else { match si % 3 {
+            0 => pki.iaca_registry(),
+            1 => pki.registry(&[(&lapsed_root, isomdl::definitions::x509::trust_anchor::TrustPurpose::Iaca), (&pki.iaca, isomdl::definitions::x509::trust_anchor::TrustPurpose::Iaca)]),
+            _ => pki.registry(&[(&other_root, isomdl::definitions::x509::trust_anchor::TrustPurpose::Iaca), (&pki.iaca, isomdl::definitions::x509::trust_anchor::TrustPurpose::Iaca)]) } };
 
         let all_elems: Vec<(String, String)> = issued.iter().flat_map(|(ns, m)| m.keys().map(move |e| (ns.clone(), e.clone()))).collect();
         let n_rounds = rng.gen_range(1..=4);
